@@ -132,6 +132,24 @@ CHECKS = {
 NOT_APPLICABLE = {
 }
 
+# clauses added in later build rounds (appended to the level text of the property)
+FRESH = (" Also decided: no node-building function reachable from the property's decoders carries a caching decorator (the spans stated by the property are those of THIS call; "
+         "the engine shifts and re-parents returned nodes in place) - a memoised helper whose results contain no node is accepted.")
+TRUTH = " Also decided: Node defines no __len__ / value-dependent __bool__, so the parent tests in Node.original mean 'there is a parent' for every span (zero-width parents included)."
+ADDENDA = {
+    "C01": (" R5: for every constant pattern handed to the regex engine, no alternation nested in an unbounded repeat has two alternatives with intersecting languages (2^k parses "
+            "between the same iteration boundaries); ambiguity of iteration boundaries is listed in the evidence but NOT judged (the matcher's repeat guards keep it linear on today's tree). "
+            "Memoised scan-path functions take hashable arguments only."),
+    "C03": TRUTH, "C04": TRUTH, "C05": TRUTH, "C06": TRUTH, "C08": TRUTH,
+    "C09": " Set algebra on dict views (keys() - keys()) and set methods yield unordered collections; a keyed sort does not sanitise iteration order.",
+    "C10": (" The percent-normalisation callback is interpreted (mdstatic/pureeval.py, nothing executed from the repository) for all 484 two-hex-digit escapes and compared with the "
+            "documented table." + FRESH),
+    "C11": " Delegated to C10's rules (necessary for the canonical value and for a candidate being reported at all): percent normalisation table, is_domain / is_ip / is_url formulas, parse_ip canonical value." + FRESH,
+    "C12": " Delegated to C10's rules: both IP parsers produce the compressed canonical form from packed bytes and label exactly when the text differs." + FRESH,
+    "C13": FRESH, "C14": FRESH, "C15": FRESH, "C16": FRESH, "C17": FRESH,
+    "C20": " Delegated to C03's pairing rule: every child attached anywhere in the package points back at its owner (make_label / string_summary walk parent links).",
+}
+
 PENDING_REASON = "static check designed (DESIGN.md section 3) but not built yet in this revision; not claimed until it runs"
 
 ALL = [f"C{n:02d}" for n in range(1, 21)]
@@ -150,7 +168,7 @@ def main():
             "evidence_file": f"/verif/evidence/{pid}.json",
             "replay_cmd_template": "cat {path}",
             "engine": "mdstatic",
-            "level_claimed": {"category": "other", "text": text, "design_ref": ref},
+            "level_claimed": {"category": "other", "text": text + ADDENDA.get(pid, ""), "design_ref": ref},
             "level_note": note,
             "technique": "static analysis: " + tech,
         })
